@@ -636,7 +636,11 @@ fn c15_token_claims(rng: &mut Rng, allow_time: bool) -> Vec<ClaimOp> {
             1 => Claim::Sub(rng.utf8_1upto(10)),
             2 => Claim::Aud(rng.utf8_1upto(10)),
             3 => Claim::Jti(rng.utf8_1upto(10)),
-            4 if allow_time => Claim::Iat("2020-01-01T00:00:00+00:00".into()),
+            4 if allow_time => match i % 3 {
+                0 => Claim::Iat("2020-01-01T00:00:00+00:00".into()),
+                1 => Claim::Nbf("2020-01-01T00:00:00+00:00".into()),
+                _ => Claim::Iat("2020-01-01T00:00:00+00:00".into()),
+            },
             5 => Claim::Custom(format!("n{}", i), json!(rng.below(100) as i64)),
             6 => Claim::Custom(format!("b{}", i), json!(rng.chance(1, 2))),
             7 => Claim::Custom(format!("o{}", i), gens::json_tree(rng, 2)),
@@ -715,7 +719,18 @@ pub fn run_c15(tier: &str, seed: u64) -> Report {
             variants.push((sup, "superset-missing-claim".into()));
         }
         let (ck, cv) = &entries[rng.below(entries.len())];
-        let (pv, kind) = if ["exp", "nbf", "iat"].contains(&ck.as_str()) { (json!("2021-06-01T00:00:00+00:00"), "other-instant") } else { perturb(cv, &mut rng) };
+        // time claims: another instant, or the SAME instant / second spelled differently (JSON-unequal strings all the same)
+        let (pv, kind) = if ["exp", "nbf", "iat"].contains(&ck.as_str()) {
+            match rng.below(5) {
+                0 => (json!("2021-06-01T00:00:00+00:00"), "other-instant"),
+                1 => (json!("2020-01-01T00:00:00Z"), "same-instant-Z-spelling"),
+                2 => (json!("2020-01-01T01:00:00+01:00"), "same-instant-other-offset"),
+                3 => (json!("2020-01-01T00:00:00.900+00:00"), "same-second-with-fraction"),
+                _ => (json!("2020-01-01T00:00:00.000+00:00"), "same-instant-with-zero-fraction"),
+            }
+        } else {
+            perturb(cv, &mut rng)
+        };
         if RESERVED.contains(&ck.as_str()) && !pv.is_string() {
             return;
         }
@@ -901,13 +916,16 @@ pub fn replay_c15(case: &Value) -> Report {
     r
 }
 
-pub const RULE_C15: &str = "for seeded random token claim sets S (registered string claims, integers, booleans, nested JSON, strings) the expected sets E = {equal, random subset, superset with one absent claim, one value changed (case / trailing space / NUL suffix / type / off-by-one / fraction / negation / extra element), one key changed by one character, expected value on a claim that is present as null, integer-vs-float spelling (don't-care)} are registered with check_claim (and, on GenericParser, also through one extend_check_claims call) on GenericParser, PasetoParser::new() and PasetoParser::default() and the authentic token is parsed; oracle = harness-side comparison of S and E: accept iff no discrepancy; a missing-only discrepancy must be reported as Missing(k) for a missing k; an error must name a failing claim. Plus 500 (thorough 5000) histories: one parser processes 8 tokens in 4 orders and every outcome must equal the fresh-parser outcome. Plus sessions in which the expectation for a key is REPLACED on a live parser between parses (check_claim again with another value). Plus PasetoParser::default().check_claim(exp|nbf) as its own class. Token claim keys include path/pointer look-alikes ('a/b' next to a nested a.b, 'https://example.com/role', '~0', 'a[0]'). distinct_nontrivial = distinct (protocol, parser kind, outcome, expectation class, error variant)";
+pub const RULE_C15: &str = "for seeded random token claim sets S (registered string claims, integers, booleans, nested JSON, strings) the expected sets E = {equal, random subset, superset with one absent claim, one value changed (case / trailing space / NUL suffix / type / off-by-one / fraction / negation / extra element; time claims: another instant and the same instant or second spelled differently), one key changed by one character, expected value on a claim that is present as null, integer-vs-float spelling (don't-care)} are registered with check_claim (and, on GenericParser, also through one extend_check_claims call) on GenericParser, PasetoParser::new() and PasetoParser::default() and the authentic token is parsed; oracle = harness-side comparison of S and E: accept iff no discrepancy; a missing-only discrepancy must be reported as Missing(k) for a missing k; an error must name a failing claim. Plus 500 (thorough 5000) histories: one parser processes 8 tokens in 4 orders and every outcome must equal the fresh-parser outcome. Plus sessions in which the expectation for a key is REPLACED on a live parser between parses (check_claim again with another value). Plus PasetoParser::default().check_claim(exp|nbf) as its own class. Token claim keys include path/pointer look-alikes ('a/b' next to a nested a.b, 'https://example.com/role', '~0', 'a[0]'). distinct_nontrivial = distinct (protocol, parser kind, outcome, expectation class, error variant)";
 
 // ==========================================================================================
 // C16
 // ==========================================================================================
 #[derive(Clone, Debug, Serialize, Deserialize)]
 pub struct C16Case {
+    /// validators registered before the expectations (then an expectation on the same key applies in addition)
+    #[serde(default)]
+    pub validators_first: bool,
     pub p: P,
     pub key: KeyMat,
     pub s: Vec<ClaimOp>,
@@ -987,7 +1005,7 @@ fn c16_eval(c: &C16Case, r: &mut Report, seed: u64) {
     if c.forgery == "wrong-assertion" && !c.p.has_assertion() {
         return;
     }
-    let cfg = ParserCfg { footer, assertion: ia, expected: c.expected.clone(), validators: c.validators.clone(), default_parser: c.default_parser, ..Default::default() };
+    let cfg = ParserCfg { footer, assertion: ia, expected: c.expected.clone(), validators: c.validators.clone(), default_parser: c.default_parser, validators_first: c.validators_first, ..Default::default() };
     let _ = vlog_take();
     let out = match c.layer {
         Layer::Generic => generic_open(c.p, &key, &t, &cfg).0,
@@ -1057,7 +1075,7 @@ fn c16_verdict(c: &C16Case, tag: &str, s: &Map<String, Value>, out: &Out<Value>,
     // expected-claim discrepancies (keys without validator only)
     // (an expectation registered with check_claim is compared unless validate_claim for the same key came after it;
     // the harness registers expectations first, then validators)
-    let e_plain: Vec<Claim> = c.expected.iter().filter(|e| !c.validators.iter().any(|v| v.reg == VReg::ValidateClaim && v.claim.key() == e.key())).cloned().collect();
+    let e_plain: Vec<Claim> = c.expected.iter().filter(|e| c.validators_first || !c.validators.iter().any(|v| v.reg == VReg::ValidateClaim && v.claim.key() == e.key())).cloned().collect();
     let disc = discrepancies(s, &e_plain);
     match out {
         Out::Ok(_) => {
@@ -1182,7 +1200,19 @@ pub fn run_c16(tier: &str, seed: u64) -> Report {
         let validators = random_validators(&mut rng, &sm, layer == Layer::Generic, dp);
         let expected: Vec<Claim> = if rng.chance(1, 3) { sm.iter().filter(|(k, _)| !(dp && (*k == "exp" || *k == "nbf"))).take(1).map(|(k, v)| to_claim(k, v)).collect() } else { vec![] };
         let forgery = forgeries[(j / 4) % forgeries.len()].to_string();
-        let c = C16Case { p, key, s, validators, expected, layer, default_parser: dp, forgery, class: "random".into() };
+        // expectations on keys that also have a validator, registered after it, with the token's own value (so only the validator can object)
+        let validators_first = j % 5 == 2;
+        let mut expected = expected;
+        if validators_first {
+            for v in &validators {
+                if let Some(val) = sm.get(v.claim.key()) {
+                    if !val.is_null() && !(RESERVED.contains(&v.claim.key()) && !val.is_string()) && !expected.iter().any(|e| e.key() == v.claim.key()) {
+                        expected.push(to_claim(v.claim.key(), val));
+                    }
+                }
+            }
+        }
+        let c = C16Case { validators_first, p, key, s, validators, expected, layer, default_parser: dp, forgery, class: "random".into() };
         c16_eval(&c, r, seed);
     });
     total.merge(r);
@@ -1227,7 +1257,7 @@ pub fn run_c16(tier: &str, seed: u64) -> Report {
         for (pos, (o, log)) in outs.iter().enumerate() {
             r.evaluations += 1;
             let (_, k, authentic) = &toks[pos];
-            let c = C16Case { p, key: key.clone(), s: specs[*k].clone(), validators: validators.clone(), expected: vec![], layer, default_parser: dp, forgery: if *authentic { "authentic".into() } else { "bitflip".into() }, class: "sequence".into() };
+            let c = C16Case { validators_first: false, p, key: key.clone(), s: specs[*k].clone(), validators: validators.clone(), expected: vec![], layer, default_parser: dp, forgery: if *authentic { "authentic".into() } else { "bitflip".into() }, class: "sequence".into() };
             let before = r.violations_total;
             c16_verdict(&c, &tag, &model_object(&specs[*k]), o, log, r, &json!({"cmd": "C16-seq", "note": "sequence case: re-run the check", "position": pos, "authentic": authentic, "spec": specs[*k]}), &format!(" [parse #{} of one parser]", pos + 1));
             if r.violations_total == before {
